@@ -43,7 +43,7 @@ def peer_pdus(sc):
     return out
 
 
-def run_one(sc, req, j, name, mutated, orig_rec, orig, ending='FIN'):
+def run_one(sc, req, j, name, mutated, orig_rec, orig, ending='FIN', local_max=65536, lazy_user=False):
     def fn(rec, b):
         return mutate.reframe(orig_rec, orig, mutated)
     ops = ops_upto_pdu(sc, j)
@@ -52,7 +52,7 @@ def run_one(sc, req, j, name, mutated, orig_rec, orig, ending='FIN'):
         ops = ops[:-1] + [('DEAF',), ops[-1], ('FIN',)]
     else:
         ops = ops + [(ending,)]
-    p = ulcorpus.play(ops, req, mutate=(j, fn))
+    p = ulcorpus.play(ops, req, mutate=(j, fn), local_max=local_max, lazy_user=lazy_user)
     finish(p)
     return p
 
@@ -85,6 +85,34 @@ def main(tier='quick'):
                         p = run_one(sc, req, j, mname, mb, rec, b, ending)
                         runs.append(p.run)
                         recipes.append({'req': req, 'conv': name, 'pdu': j, 'mutator': mname, 'bytes': mb.hex(), 'ending': ending})
+    # (a) an unrecognised PDU whose size is exactly one or two read buffers of a provider with a small own maximum, in
+    #     every state the corpus reaches; (b) the local user does not take its indications while the peer pipelines
+    n_extra = 0
+    for req, corp in ((False, ulcorpus.ACCEPTOR), (True, ulcorpus.REQUESTOR)):
+        for name in ('echo', 'local-release', 'collision', 'store'):
+            if name not in corp:
+                continue
+            sc = corp[name]
+            pdus = peer_pdus(sc)
+            for j, (rec, b) in enumerate(pdus):
+                for lm in (128,):
+                    for k in (1, 2):
+                        mb = bytes([0x2A, 0]) + (k * lm - 6).to_bytes(4, 'big') + bytes(k * lm - 6)
+                        p = run_one(sc, req, j, 'unknown-type-%dx-read-buffer' % k, mb, rec, b, 'FIN', local_max=lm)
+                        runs.append(p.run)
+                        recipes.append({'req': req, 'conv': name, 'pdu': j, 'mutator': 'unknown-type-%dx-read-buffer' % k, 'bytes': mb.hex(), 'ending': 'FIN', 'local_max': lm})
+                        n_extra += 1
+        for name in (('many-pipelined', 'pipelined', 'store') if not req else ('find', 'response-close')):
+            sc = corp[name]
+            for ending in ('FIN', 'DEAF'):
+                pdus = peer_pdus(sc)
+                j = len(pdus) - 1
+                rec, b = pdus[j]
+                mb = bytes([0x2A, 0, 0, 0, 0, 4, 1, 2, 3, 4])
+                p = run_one(sc, req, j, 'unknown-type', mb, rec, b, ending, lazy_user=True)
+                runs.append(p.run)
+                recipes.append({'req': req, 'conv': name, 'pdu': j, 'mutator': 'unknown-type', 'bytes': mb.hex(), 'ending': ending, 'lazy_user': True})
+                n_extra += 1
     stats = ulcheck.validate(v, runs, recipes, chunk=2500)
     cells = stats.pop('cells')
     ev = {
@@ -109,7 +137,8 @@ def replay(doc):
     corp = ulcorpus.REQUESTOR if rec['req'] else ulcorpus.ACCEPTOR
     sc = corp[rec['conv']]
     orig_rec, orig = peer_pdus(sc)[rec['pdu']]
-    p = run_one(sc, rec['req'], rec['pdu'], rec['mutator'], bytes.fromhex(rec['bytes']), orig_rec, orig, rec.get('ending', 'FIN'))
+    p = run_one(sc, rec['req'], rec['pdu'], rec['mutator'], bytes.fromhex(rec['bytes']), orig_rec, orig, rec.get('ending', 'FIN'),
+                local_max=rec.get('local_max', 65536), lazy_user=rec.get('lazy_user', False))
     v = Verdict('C12', 'quick')
     ulcheck.validate(v, [p.run], [rec])
     for x in v.violations:
